@@ -3,7 +3,7 @@ reduction reaches a learned quantity or prediction (DESIGN.md section 4, C20).""
 import re
 
 from .core import RuleResult
-from .facts import fn_key, fn_loc, walk, strip, Render
+from .facts import fn_key, fn_loc, walk, strip, Render, peel_refs, pat_bindings
 from . import taint
 
 LEVEL = ("Static taint classification over every lib body of the workspace: every iteration over a HashMap/HashSet (and every "
@@ -369,5 +369,131 @@ def verdict_closure(res, fn, call, inst):
         res.sample({"site": inst, "captures": [(x["name"], x["by"]) for cl in clos for x in cl.get("captures", [])]})
 
 
+def _hash_ty(t):
+    return bool(t) and ("HashMap<" in t or "HashSet<" in t)
+
+
+def order_tainted_values(F):
+    """{(value type text, component index)}: components of hash-map values that are assigned in hash-iteration order -
+    `map.insert(k, (map.len(), ..))` or a running counter, inside a loop over a hash container.  Such a component is a
+    different number from run to run although the map's key set is not."""
+    out = {}
+    for fn in F.all_fns():
+        c = fn["crate"]
+        for loop in walk(fn["body"]):
+            if loop.get("k") != "Match" or loop.get("src") != "ForLoopDesugar":
+                continue
+            it = loop["scrut"]
+            src_ty = " ".join((c.ty(y.get("t")) or "") for y in walk(it) if y.get("k") in ("Path", "MethodCall", "Field"))
+            if not _hash_ty(src_ty):
+                continue
+            # locals that hold a length / counter
+            counters = set()
+            for y in walk(loop):
+                if y.get("k") == "LetStmt" and y.get("init") is not None and y["pat"].get("k") == "Bind":
+                    i0 = peel_refs(y["init"])
+                    if i0.get("k") == "MethodCall" and i0["name"] == "len" and _hash_ty(c.ty(peel_refs(i0["recv"]).get("t")) or c.ty(i0["recv"].get("at")) or ""):
+                        counters.add(y["pat"]["local"])
+                if y.get("k") == "AssignOp" and y["op"] == "+" and peel_refs(y["l"]).get("k") == "Path" and "local" in peel_refs(y["l"]):
+                    counters.add(peel_refs(y["l"])["local"])
+            for y in walk(loop):
+                if y.get("k") != "MethodCall" or y["name"] not in ("insert", "or_insert", "or_insert_with") or not y["args"]:
+                    continue
+                val = peel_refs(y["args"][-1])
+                rty = c.ty(peel_refs(y["recv"]).get("t")) or ""
+                if y["name"] == "insert" and "HashMap<" not in rty:
+                    continue
+                comps = val["es"] if val.get("k") == "Tup" else [val]
+                for i_, e in enumerate(comps):
+                    dep = any(z.get("k") == "Path" and z.get("local") in counters for z in walk(e)) or any(z.get("k") == "MethodCall" and z["name"] == "len" and _hash_ty(c.ty(peel_refs(z["recv"]).get("t")) or "") for z in walk(e))
+                    if dep:
+                        vt = c.ty(val.get("t")) or ""
+                        out[(vt, i_ if val.get("k") == "Tup" else -1)] = (fn, y)
+    return out
+
+
+def rule_sortkey(ctx):
+    """A sort over the entries of a hash map is reproducible when its key is a total order on reproducible data: the
+    entry's map key is unique, so everything after it in a lexicographic key is irrelevant - but a component *before* it
+    must itself be reproducible.  Value components that were numbered in hash-iteration order (provisional indices) are
+    not; ranked before the map key they decide ties differently in every process."""
+    res = RuleResult("R-C20-sortkey", "lexicographic sort keys over hash-map entries rank no hash-order-numbered value component before the (unique) map key")
+    F = ctx.facts()
+    tainted = order_tainted_values(F)
+    res.info.append("value components numbered in hash-iteration order: %s" % sorted("%s#%d in %s" % (t[:40], i, fn_key(f)) for (t, i), (f, _) in tainted.items()))
+    n = 0
+    for fn in F.all_fns():
+        c = fn["crate"]
+        if fn.get("exp"):
+            continue
+        for y in walk(fn["body"]):
+            # a closure over (key, value) entries of a hash map that builds a tuple
+            if y.get("k") != "MethodCall" or y["name"] not in ("map", "sort_by_key", "sort_unstable_by_key", "sort_by_cached_key", "max_by_key", "min_by_key", "sorted_by_key"):
+                continue
+            if not y["args"]:
+                continue
+            clo = strip(y["args"][-1])
+            if clo.get("k") != "Closure" or len(clo["params"]) != 1:
+                continue
+            recv_ty = " ".join((c.ty(z.get("t")) or "") for z in walk(y["recv"]) if z.get("k") in ("Path", "MethodCall", "Field"))
+            if "HashMap<" not in recv_ty:
+                continue
+            pat = clo["params"][0]
+            while pat.get("k") == "Ref":
+                pat = pat.get("pat")
+            if pat.get("k") != "Tuple" or len(pat["pats"]) != 2:
+                continue
+            body = strip(clo["body"])
+            while body.get("k") == "Block" and not body.get("stmts") and body.get("e") is not None:
+                body = strip(body["e"])
+            if body.get("k") != "Tup":
+                continue
+            # is the tuple a sort key?  (map(..) feeding sorted / sort / collect-then-sort is decided by the consumer; the
+            # by_key adaptors are sort keys by themselves)
+            is_key = y["name"] != "map"
+            if not is_key:
+                par = [z for z in walk(fn["body"]) if z.get("k") in ("Call", "MethodCall") and any(a is y or any(w is y for w in walk(a)) for a in (z.get("args") or []) + ([z["recv"]] if z.get("k") == "MethodCall" else []))]
+                for z in par:
+                    nm = z["name"] if z.get("k") == "MethodCall" else (c.dfn(strip(z["f"]).get("def")) or {}).get("name") if strip(z["f"]).get("k") == "Path" else None
+                    if nm in ("sorted", "sorted_unstable", "sort", "sorted_by", "min", "max", "collect_sorted"):
+                        is_key = True
+            if not is_key:
+                continue
+            n += 1
+            key = fn_key(fn)
+            res.instance("%s : sort key over hash-map entries" % key)
+            keyb = set(b["local"] for b in pat_bindings(pat["pats"][0]))
+            vpat = pat["pats"][1]
+            while vpat.get("k") == "Ref":
+                vpat = vpat.get("pat")
+            vcomps = vpat["pats"] if vpat.get("k") == "Tuple" else [vpat]
+            vty = None
+            for (t, i_), _ in tainted.items():
+                if t and t in recv_ty.replace(" ", "") or t in recv_ty:
+                    vty = t
+            tl = {}
+            for i_, q in enumerate(vcomps):
+                idx = i_ if vpat.get("k") == "Tuple" else -1
+                if vty is not None and (vty, idx) in tainted:
+                    for b in pat_bindings(q):
+                        tl[b["local"]] = (b["name"], tainted[(vty, idx)][0])
+            pos_key = None
+            pos_t = None
+            for i_, e in enumerate(body["es"]):
+                locs = set(z.get("local") for z in walk(e) if z.get("k") == "Path" and "local" in z)
+                if pos_key is None and locs & keyb:
+                    pos_key = i_
+                if pos_t is None and locs & set(tl):
+                    pos_t = (i_, [tl[l] for l in locs & set(tl)][0])
+            if pos_t is not None and (pos_key is None or pos_t[0] < pos_key):
+                nm, src = pos_t[1]
+                res.violate("%s : order-numbered-component-before-key:%s" % (key, nm), "the sort key ranks `%s` before the map key: `%s` is numbered in hash-iteration order (%s), so entries that tie on the earlier components are ordered differently from process to process, and whatever is cut or numbered after the sort differs with it" % (nm, nm, fn_key(src)), fn_loc(fn, body.get("ln")))
+            else:
+                res.ok()
+    if n < 1:
+        res.missing_anchor("the sort key of CountVectorizerValidParams::filter_vocabulary (max_features cut)")
+    return res.finish(1)
+
+
 def rules(tier):
-    return [rule_hash, rule_entropy, rule_seed, rule_par]
+    return [rule_hash, rule_entropy, rule_seed, rule_par, rule_sortkey]
